@@ -14,7 +14,7 @@ measurements (`Geometry.integrate`, `EMD`), model calls on raw arrays; plus the 
 in-place `to_trichromatic` / attribute rebinding and `img.img[...] = v`.
 New arrays computed by numpy / cv2 / skimage are parameters of the model (their *values* are outside it).
 -/
-import DarsiaProofs.HeapShare
+import DarsiaProofs.HeapTyped
 import DarsiaGen.MulGuard
 import DarsiaGen.WriteSets
 namespace Darsia.C17
@@ -51,6 +51,24 @@ theorem chain_preserves_args (h h' : Heap) (ops : List Op) (wf : WF h)
   intro a ha b
   have f := run_frame _ ops h h' hs
   exact ⟨fun rb => f.2 b (reach_lt wf rb ha), frame_reach wf f ha⟩
+
+/-- **Well-formedness and typing are preserved by every modelled call** (no dangling reference is created; `date` /
+`time` of every image stay date / time objects; views keep referring to owning arrays) — so every intermediate heap
+of a chain satisfies the hypotheses of the theorems of this file. -/
+theorem step_preserves_wf_typed (h h' : Heap) (op : Op) (r : Nat) (hs : step Gen.mulGuard h op = .ok (h', r)) :
+    (WF h → WF h') ∧ (Typed h → Typed h') :=
+  ⟨fun wf => step_wf _ h h' op r wf hs, fun ty => step_typed _ h h' op r ty hs⟩
+
+/-- **Chains, full statement**: split a chain anywhere; every object existing at that point — operands of the
+initial heap AND results created by the first part, which the second part may use as arguments — keeps everything
+reachable from it unchanged through the second part, with the same reachable set. -/
+theorem chain_preserves_intermediate (h h1 h2 : Heap) (ops1 ops2 : List Op) (wf : WF h)
+    (hs1 : run Gen.mulGuard h ops1 = .ok h1) (hs2 : run Gen.mulGuard h1 ops2 = .ok h2) :
+    WF h1 ∧ ∀ a, a < h1.length → ∀ b, (Reach h1 a b → h2[b]? = h1[b]?) ∧ (Reach h2 a b ↔ Reach h1 a b) := by
+  have wf1 := run_wf _ ops1 h h1 wf hs1
+  refine ⟨wf1, fun a ha b => ?_⟩
+  have f := run_frame _ ops2 h1 h2 hs2
+  exact ⟨fun rb => f.2 b (reach_lt wf1 rb ha), frame_reach wf1 f ha⟩
 
 /-- `stack(images)` in particular: the list and every image in it (first one included) are untouched. -/
 theorem stack_preserves_images (h h' : Heap) (l r : Nat) (wf : WF h)
